@@ -57,7 +57,16 @@ func binSample(c *fw.Ctx, res *fw.Result, idx int, tag string, files map[string]
 		res.Count(fmt.Sprintf("binary_runs_with_%d_cpu", cpus), 1)
 		argv = append([]string{fmt.Sprintf("[taskset -c 0-%d]", cpus-1)}, argv...)
 	}
-	br := fw.RunBin(bin, fullArgv, stdin, nil, d, 120*time.Second)
+	var br fw.BinResult
+	if outFlag == "" {
+		// standard output is a small pipe with a slow reader (a pager, a throttled consumer)
+		br = fw.RunBinSlowPipe(bin, fullArgv, stdin, nil, d, 120*time.Second)
+		if len(want) > 12288 {
+			res.Count("binary_stdout_runs_larger_than_3_pipe_buffers", 1)
+		}
+	} else {
+		br = fw.RunBin(bin, fullArgv, stdin, nil, d, 120*time.Second)
+	}
 	res.Evals++
 	res.Count("binary_runs", 1)
 	if br.TimedOut {
